@@ -891,6 +891,20 @@ func main() {
 	s.WriteString(leanList("hashToCurvePointCalls", "bn256.go: callees of hashToCurvePoint", c3))
 	s.WriteString(leanList("bn256PackageState", "bn256/*.go: every write-capable use of a package-level variable inside a function body (assign / incdec / &v / method call with v as receiver)", packageState(dir+"bn256/")))
 	s.WriteString(leanList("groupsigValueUses", "sig.go, pubkey.go: methods invoked on / addresses taken of the shared-pointer field `.value` of a receiver or parameter", valueFieldUses(sigf, pkf)))
+	cmb := parse("src/common/bytes.go")
+	s.WriteString(leanList("bnIntGetHexString", "bn_curve.go: BnInt.getHexString", shape(findFunc(bcf, "BnInt", "getHexString"))))
+	s.WriteString(leanList("bnIntSetHexString", "bn_curve.go: BnInt.setHexString", shape(findFunc(bcf, "BnInt", "setHexString"))))
+	s.WriteString(leanList("sigGetHexString", "sig.go: Signature.GetHexString", shape(findFunc(sigf, "Signature", "GetHexString"))))
+	s.WriteString(leanList("sigSetHexString", "sig.go: Signature.SetHexString", shape(findFunc(sigf, "Signature", "SetHexString"))))
+	s.WriteString(leanList("pubGetHexString", "pubkey.go: Pubkey.GetHexString", shape(findFunc(pkf, "Pubkey", "GetHexString"))))
+	s.WriteString(leanList("pubSetHexString", "pubkey.go: Pubkey.SetHexString", shape(findFunc(pkf, "Pubkey", "SetHexString"))))
+	s.WriteString(leanList("pubUnmarshalJSON", "pubkey.go: Pubkey.UnmarshalJSON", shape(findFunc(pkf, "Pubkey", "UnmarshalJSON"))))
+	s.WriteString(leanList("idGetHexString", "id.go: ID.GetHexString", shape(findFunc(idf, "ID", "GetHexString"))))
+	s.WriteString(leanList("idSetHexString", "id.go: ID.SetHexString", shape(findFunc(idf, "ID", "SetHexString"))))
+	s.WriteString(leanList("idUnmarshalJSON", "id.go: ID.UnmarshalJSON", shape(findFunc(idf, "ID", "UnmarshalJSON"))))
+	s.WriteString(leanList("commonHex2Bytes", "common/bytes.go: Hex2Bytes", shape(findFunc(cmb, "", "Hex2Bytes"))))
+	s.WriteString(leanList("commonBytes2Hex", "common/bytes.go: Bytes2Hex", shape(findFunc(cmb, "", "Bytes2Hex"))))
+	s.WriteString(leanList("commonToHex", "common/bytes.go: ToHex", shape(findFunc(cmb, "", "ToHex"))))
 	s.WriteString(leanList("groupsigExternalUses", "groupsig/*.go: everything used from other go-rangers packages (no chain configuration, no fork flags, no block height)", externalUses(dir)))
 	s.WriteString(leanList("bn256ExternalUses", "bn256/*.go: everything used from other go-rangers packages (nothing)", externalUses(dir+"bn256/")))
 	s.WriteString("end Rangers.Generated.Bls14.Shape\n")
